@@ -147,7 +147,9 @@ template <class V, class I> void mm_sparse_rt(Case &c, Rng &r, size_t n, size_t 
         }
         std::vector<std::pair<ptrdiff_t, ptrdiff_t>> rg; ranges_for(n, r, rg);
         bool ok = true; ptrdiff_t fb = -1, fe = -1;
-        for (auto &be : rg) { io::mm_reader rd(fn); std::vector<I> p, cc; std::vector<V> v; size_t rows, cols; std::tie(rows, cols) = rd(p, cc, v, be.first, be.second);
+        // the output vectors are REUSED across the row-range reads (dirty with the previous result): a reader must not depend on their prior content
+        std::vector<I> p, cc; std::vector<V> v;
+        for (auto &be : rg) { io::mm_reader rd(fn); size_t rows, cols; std::tie(rows, cols) = rd(p, cc, v, be.first, be.second);
             if (!(rows == (size_t)(be.second - be.first) && cols == m && slice_equal<I, V>(A, be.first, be.second, p, cc, v))) { if (ok) { fb = be.first; fe = be.second; } ok = false; } vf::obs_sum("row_ranges_read"); }
         c.check(ok, "mm_reader:row-range:" + T, "row range read differs from the slice of the full matrix", J().n("n", n).n("beg", fb).n("end", fe));
     } catch (const std::exception &e) { c.fail("mm_roundtrip:exception", std::string(e.what()) + " (" + T + ")"); }
@@ -160,7 +162,8 @@ template <class V> void mm_dense_rt(Case &c, Rng &r, size_t n, size_t m) {
         { io::mm_reader rd(fn); std::vector<V> v; size_t rows, cols; c.check(!rd.is_sparse() && rd.rows() == n && rd.cols() == m, "mm_reader:header", "dense header differs");
           std::tie(rows, cols) = rd(v); c.check(rows == n && cols == m && same(d, v), "mm_roundtrip:dense:" + T, "dense MatrixMarket round trip is not bitwise exact", J().n("n", n).n("m", m)); }
         std::vector<std::pair<ptrdiff_t, ptrdiff_t>> rg; ranges_for(n, r, rg); bool ok = true;
-        for (auto &be : rg) { io::mm_reader rd(fn); std::vector<V> v; size_t rows, cols; std::tie(rows, cols) = rd(v, be.first, be.second);
+        std::vector<V> v;    // reused across the reads, see above
+        for (auto &be : rg) { io::mm_reader rd(fn); size_t rows, cols; std::tie(rows, cols) = rd(v, be.first, be.second);
             std::vector<V> ex(d.begin() + be.first * m, d.begin() + be.second * m); if (!(rows == (size_t)(be.second - be.first) && cols == m && same(ex, v))) ok = false; vf::obs_sum("row_ranges_read"); }
         c.check(ok, "mm_reader:dense-row-range:" + T, "dense row range differs from the slice");
     } catch (const std::exception &e) { c.fail("mm_roundtrip:exception", std::string(e.what()) + " (dense " + T + ")"); }
@@ -252,7 +255,8 @@ template <class S, class P, class C, class V> void bin_rt(Case &c, Rng &r, size_
         S nn = 0; std::vector<P> p; std::vector<C> cc; std::vector<V> v; io::read_crs(fn, nn, p, cc, v);
         c.check((size_t)nn == n && slice_equal<P, V>(A, 0, n, p, std::vector<P>(cc.begin(), cc.end()), v), "binary_roundtrip:crs:" + T, "binary CRS round trip is not bitwise exact", J().n("n", n).n("nnz", A.col.size()));
         std::vector<std::pair<ptrdiff_t, ptrdiff_t>> rg; ranges_for(n, r, rg); bool ok = true; ptrdiff_t fb = -1, fe = -1;
-        for (auto &be : rg) { S n2 = 0; std::vector<P> p2; std::vector<C> c2; std::vector<V> v2; io::read_crs(fn, n2, p2, c2, v2, be.first, be.second);
+        std::vector<P> p2; std::vector<C> c2; std::vector<V> v2;   // reused across the reads (dirty with the previous result)
+        for (auto &be : rg) { S n2 = 0; io::read_crs(fn, n2, p2, c2, v2, be.first, be.second);
             if (!((size_t)n2 == n && slice_equal<P, V>(A, be.first, be.second, p2, std::vector<P>(c2.begin(), c2.end()), v2))) { if (ok) { fb = be.first; fe = be.second; } ok = false; } vf::obs_sum("row_ranges_read"); }
         c.check(ok, "read_crs:row-range:" + T, "binary row range differs from the slice", J().n("beg", fb).n("end", fe).n("n", n));
     } catch (const std::exception &e) { c.fail("binary_roundtrip:exception", std::string(e.what()) + " (" + T + ")"); }
